@@ -17,7 +17,7 @@ Open Scope Z_scope.
    Begin, statements..., E   where E is a Commit or a Rollback: exactly one end call,
    and it is the last call. *)
 Theorem ends_exactly_once : forall i,
-  ibrk i = true ->
+  let_through i = true ->
   (ibegin i = false ->
      rlog (transact i) = [(CBegin, false)] /\ rruns (transact i) = 0 /\ rbody (transact i) = None) /\
   (ibegin i = true ->
@@ -31,17 +31,38 @@ Theorem ends_exactly_once : forall i,
 Proof. exact ends_exactly_once_l. Qed.
 Print Assumptions ends_exactly_once.
 
-(* The breaker refusing the call: no transaction, no body, the caller is told. *)
-Theorem breaker_refusal_runs_nothing : forall i,
-  ibrk i = false ->
+(* An already cancelled context (breaker.DoWithAcceptableCtx returns ctx.Err() at once) or
+   the breaker refusing the call: no transaction, no body, the caller is told. *)
+Theorem refused_call_runs_nothing : forall i,
+  let_through i = false ->
   rlog (transact i) = [] /\ rruns (transact i) = 0 /\ rbody (transact i) = None /\
-  rerr (transact i) = EUnavailable.
+  rerr (transact i) = (if is_dead (ictx i) then ECanceled else EUnavailable).
 Proof. exact breaker_refusal_l. Qed.
-Print Assumptions breaker_refusal_runs_nothing.
+Print Assumptions refused_call_runs_nothing.
+
+(* For EVERY input — every context state included: the driver sees at most one Begin and at
+   most one end call, and exactly one end call iff the call was let through and Begin
+   succeeded.  In particular cancelling the context during the body never ends the
+   transaction behind go-zero's back (it begins with db.Begin(), i.e. context.Background()):
+   the deferred Commit / Rollback is the one end call. *)
+Theorem ends_at_most_once_whatever_the_context : forall i,
+  (count is_end (rlog (transact i)) <= 1)%nat /\
+  (count is_begin (rlog (transact i)) <= 1)%nat /\
+  (count is_end (rlog (transact i)) = 1%nat <-> (let_through i = true /\ ibegin i = true)).
+Proof. exact ends_at_most_once_l. Qed.
+Print Assumptions ends_at_most_once_whatever_the_context.
+
+(* Statements issued from the cancellation point on never reach the driver. *)
+Theorem statements_after_cancel_never_reach_driver : forall i x,
+  let_through i = true -> ibegin i = true ->
+  In x (rlog (transact i)) -> is_exec (fst x) = true ->
+  ctx_covers (ictx i) (exec_index x) = false.
+Proof. exact statements_after_cancel_l. Qed.
+Print Assumptions statements_after_cancel_never_reach_driver.
 
 (* Commit iff the body returned nil; Rollback iff it returned an error or panicked. *)
 Theorem commit_iff_body_nil : forall i,
-  ibrk i = true -> ibegin i = true ->
+  let_through i = true -> ibegin i = true ->
   ((exists ok, In (CCommit, ok) (rlog (transact i))) <-> rbody (transact i) = Some BNil) /\
   ((exists ok, In (CRollback, ok) (rlog (transact i))) <->
      (rbody (transact i) = Some BPanic \/ exists b, rbody (transact i) = Some (BErr b))).
@@ -52,10 +73,10 @@ Print Assumptions commit_iff_body_nil.
    nil iff no failing statement made it leave and it ends with "return nil"; otherwise
    the first statement it reacts to decides (error of that statement, or panic). *)
 Theorem body_outcome_is_the_scripts : forall i,
-  ibrk i = true -> ibegin i = true ->
-  (rbody (transact i) = Some BNil <-> (quiet (istmts i) /\ ifin i = RNil)) /\
-  (quiet (istmts i) -> rbody (transact i) = Some (fin_out (ifin i))) /\
-  (forall pre s post, istmts i = pre ++ s :: post -> quiet pre -> reacts s = true ->
+  let_through i = true -> ibegin i = true ->
+  (rbody (transact i) = Some BNil <-> (quiet (estmts i) /\ ifin i = RNil)) /\
+  (quiet (estmts i) -> rbody (transact i) = Some (fin_out (ifin i))) /\
+  (forall pre s post, estmts i = pre ++ s :: post -> quiet pre -> reacts s = true ->
      rbody (transact i) = Some (reaction (Z.of_nat (length pre)) s)).
 Proof. exact body_outcome_l. Qed.
 Print Assumptions body_outcome_is_the_scripts.
@@ -63,7 +84,7 @@ Print Assumptions body_outcome_is_the_scripts.
 (* A panic in the body: the last driver call is a Rollback, and the caller gets a
    non-nil "recover from ..." error (wrapping the rollback error if that failed too). *)
 Theorem panic_rolls_back_and_errors : forall i,
-  ibrk i = true -> ibegin i = true -> rbody (transact i) = Some BPanic ->
+  let_through i = true -> ibegin i = true -> rbody (transact i) = Some BPanic ->
   (exists mid, rlog (transact i) = (CBegin, true) :: mid ++ [(CRollback, irollback i)]) /\
   rerr (transact i) <> ENil /\
   rerr (transact i) = (if irollback i then ERecover else ERecoverRollback).
@@ -87,7 +108,7 @@ Print Assumptions end_failures_surface.
 (* The body's error comes back unchanged when the rollback worked, and named inside
    the "transaction failed: ..., rollback failed: ..." error otherwise. *)
 Theorem body_error_is_returned : forall i b,
-  ibrk i = true -> ibegin i = true -> rbody (transact i) = Some (BErr b) ->
+  let_through i = true -> ibegin i = true -> rbody (transact i) = Some (BErr b) ->
   rerr (transact i) = (if irollback i then EBody b else ETxFailedRollback b).
 Proof. exact body_error_returned_l. Qed.
 Print Assumptions body_error_is_returned.
@@ -95,7 +116,7 @@ Print Assumptions body_error_is_returned.
 (* Between Begin and the end call the driver sees only statements of the body, each at
    most once, in program order. *)
 Theorem statements_in_order_at_most_once : forall i,
-  ibrk i = true -> ibegin i = true ->
+  let_through i = true -> ibegin i = true ->
   exists mid e, rlog (transact i) = (CBegin, true) :: mid ++ [e] /\
     StronglySorted (fun x y => exec_index x < exec_index y) mid /\
     Forall (fun x => 0 <= exec_index x < Z.of_nat (length (istmts i))) mid.
@@ -104,8 +125,8 @@ Print Assumptions statements_in_order_at_most_once.
 
 (* ... and none is skipped while the body keeps going. *)
 Theorem quiet_body_runs_every_statement : forall i j s,
-  ibrk i = true -> ibegin i = true -> quiet (istmts i) ->
-  nth_error (istmts i) j = Some s -> sres_of s <> SCtx ->
+  let_through i = true -> ibegin i = true -> quiet (estmts i) ->
+  nth_error (estmts i) j = Some s -> sres_of s <> SCtx ->
   In (CExec (Z.of_nat j), match sres_of s with SOk => true | _ => false end) (rlog (transact i)).
 Proof. exact quiet_body_runs_all_l. Qed.
 Print Assumptions quiet_body_runs_every_statement.
@@ -121,7 +142,7 @@ Print Assumptions model_passes_the_check.
 Theorem check_means_the_property : forall c,
   prop_ok c = true ->
   match olog c with
-  | [] => ibrk (cin c) = false /\ oruns c = 0 /\ e_nil (oerr c) = false
+  | [] => let_through (cin c) = false /\ oruns c = 0 /\ e_nil (oerr c) = false
   | (CBegin, false) :: rest => rest = [] /\ oruns c = 0 /\ e_nil (oerr c) = false
   | (CBegin, true) :: rest =>
     oruns c = 1 /\
@@ -144,7 +165,7 @@ Print Assumptions check_means_the_property.
 (* three statements, the second fails in the driver and the body returns that error;
    the rollback fails too *)
 Definition ex_stmt_fails : input :=
-  mkInput true true [mkStmt SOk FStop; mkStmt SFail FStop; mkStmt SOk FStop] RNil true false.
+  mkInput true true [mkStmt SOk FStop; mkStmt SFail FStop; mkStmt SOk FStop] RNil true false CLive.
 Example ex_stmt_fails_run :
   transact ex_stmt_fails =
   mkResult [(CBegin, true); (CExec 0, true); (CExec 1, false); (CRollback, false)] 1
@@ -153,7 +174,7 @@ Proof. vm_compute. reflexivity. Qed.
 
 (* an ignored failure, then a panic after the last statement *)
 Definition ex_panic : input :=
-  mkInput true true [mkStmt SFail FIgnore; mkStmt SCtx FIgnore; mkStmt SOk FPanic] RPanic true true.
+  mkInput true true [mkStmt SFail FIgnore; mkStmt SCtx FIgnore; mkStmt SOk FPanic] RPanic true true CLive.
 Example ex_panic_hyp : ibrk ex_panic = true /\ ibegin ex_panic = true /\
   rbody (transact ex_panic) = Some BPanic /\ quiet (istmts ex_panic).
 Proof. vm_compute. auto. Qed.
@@ -164,14 +185,14 @@ Proof. vm_compute. auto. Qed.
 
 (* a quiet body whose commit fails *)
 Definition ex_commit_fails : input :=
-  mkInput true true [mkStmt SOk FStop; mkStmt SOk FStop] RNil false true.
+  mkInput true true [mkStmt SOk FStop; mkStmt SOk FStop] RNil false true CLive.
 Example ex_commit_fails_run :
   In (CCommit, false) (rlog (transact ex_commit_fails)) /\ rerr (transact ex_commit_fails) = ECommit
   /\ rbody (transact ex_commit_fails) = Some BNil.
 Proof. vm_compute. auto 10. Qed.
 
 Example ex_begin_fails :
-  transact (mkInput true false [mkStmt SOk FStop] RNil true true) = mkResult [(CBegin, false)] 0 None EBegin.
+  transact (mkInput true false [mkStmt SOk FStop] RNil true true CLive) = mkResult [(CBegin, false)] 0 None EBegin.
 Proof. vm_compute. reflexivity. Qed.
 
 (* a first reacting statement in the middle (hypotheses of body_outcome_is_the_scripts) *)
@@ -179,3 +200,22 @@ Example ex_reacting :
   istmts ex_stmt_fails = [mkStmt SOk FStop] ++ mkStmt SFail FStop :: [mkStmt SOk FStop]
   /\ quiet [mkStmt SOk FStop] /\ reacts (mkStmt SFail FStop) = true.
 Proof. vm_compute. auto. Qed.
+
+(* the context: dead before the call — nothing happens, ctx.Err() is returned *)
+Example ex_dead_context :
+  transact (mkInput true true [mkStmt SOk FStop] RNil true true CDead) = mkResult [] 0 None ECanceled.
+Proof. vm_compute. reflexivity. Qed.
+
+(* cancelled by the body before its 2nd statement: that statement is refused and the body
+   returns context.Canceled -> one Rollback *)
+Example ex_cancel_mid_body :
+  transact (mkInput true true [mkStmt SOk FStop; mkStmt SOk FStop; mkStmt SOk FStop] RNil true true (CAt 1)) =
+  mkResult [(CBegin, true); (CExec 0, true); (CRollback, true)] 1 (Some (BErr (BCtx 1))) (EBody (BCtx 1)).
+Proof. vm_compute. reflexivity. Qed.
+
+(* ... but a body that swallows statement errors COMMITS although its context is cancelled
+   (observed on the real code too: the transaction is not bound to the context) *)
+Example ex_cancelled_but_commits :
+  transact (mkInput true true [mkStmt SOk FIgnore; mkStmt SOk FIgnore] RNil true true (CAt 1)) =
+  mkResult [(CBegin, true); (CExec 0, true); (CCommit, true)] 1 (Some BNil) ENil.
+Proof. vm_compute. reflexivity. Qed.
